@@ -37,7 +37,8 @@ class Prop(BaseProp):
                         case["trains"][1] = sorted(set(case["trains"][1]) | set(rng.sample(src, rng.randint(1, len(src)))))
                 case["kind"] = kind
                 T = case["te"] - case["ts"]
-                case["bin"] = rng.choice([T, T / 2, T / 3, T / 4, T / 7, T / 64, T * 0.3, T * 0.7, T / 10, T * 0.999])
+                case["bin"] = rng.choice([T, T / 2, T / 3, T / 4, T / 7, T / 64, T * 0.3, T * 0.7, T / 10, T * 0.999,
+                                          T / rng.randint(1, 200), T / rng.randint(1, 200), T / rng.randint(1, 200)])
             else:
                 T0 = rng.choice([0.0, 0.0, 50.0, 1000.0, -100.0, -20.0, 0.5])
                 L = rng.choice([1.0, 10.0, 100.0, 0.01])
